@@ -34,6 +34,8 @@ structure PState (α : Type) where
   nLocal : Nat := 0
   /-- number of calls of `Problem.Calculate` made by the global search so far (failed ones included) -/
   calls : Nat := 0
+  /-- the id of the trial improved by the last local refinement (`Process.__refinedTrial`) -/
+  refined : Option Nat := none
 
 /-- result of an operation that may propagate a Python exception to the caller -/
 structure Res (α : Type) where
@@ -95,13 +97,25 @@ structure LocalResult (α : Type) where
   fx : α
   nfev : Nat
 
-/-- `DoLocalRefinement`: overwrite point and value holder of the best trial in place. -/
+/-- the trial that `GetResults()` reports: the refined one while it is another trial than the method's best and its value holder is strictly
+smaller than the best's, else the method's best -/
+def reportedId (ps : PState α) (s : State α) : Nat :=
+  match ps.refined with
+  | none => s.best
+  | some r =>
+    match findItem s.items r, findItem s.items s.best with
+    | some ri, some bi => if r ≠ s.best ∧ ri.hv < bi.hv then r else s.best
+    | _, _ => s.best
+
+/-- `DoLocalRefinement`: overwrite point and value holder of the reported trial (`GetResults().bestTrials[0]`) in place
+and remember it as `__refinedTrial`. -/
 def doLocalRefinement (ps : PState α) (lr : LocalResult α) : PState α :=
   match ps.m with
   | none => ps
   | some s =>
-    let items := s.items.map fun it => if it.id == s.best then { it with point := lr.x, hv := lr.fx } else it
-    { ps with m := some { s with items := items }, nLocal := lr.nfev }
+    let rid := reportedId ps s
+    let items := s.items.map fun it => if it.id == rid then { it with point := lr.x, hv := lr.fx } else it
+    { ps with m := some { s with items := items }, nLocal := lr.nfev, refined := some rid }
 
 /-- `Solve` (without refinement; the driver applies `doLocalRefinement` in between when asked to).
 Fuel `itersLimit + 1` always suffices (`IOptProps/C03.lean`). -/
